@@ -464,13 +464,13 @@ class UsageOracle(object):
             if m:
                 a, b = m.group('a').strip(), m.group('b').strip()
                 for x, y in ((a, b), (b, a)):
-                    if x in (F, 'set(%s)' % F) and self._effective(y):
+                    if x in (F, 'set(%s)' % F, 'frozenset(%s)' % F) and self._effective(y):
                         return self._effective(y) + (True,)
         m = re.match(r'^(?P<a>.+)\.isdisjoint\((?P<b>.+)\)$', t)
         if m:
             a, b = m.group('a').strip(), m.group('b').strip()
             for x, y in ((a, b), (b, a)):
-                if x in (F, 'set(%s)' % F) and self._effective(y):
+                if x in (F, 'set(%s)' % F, 'frozenset(%s)' % F) and self._effective(y):
                     return self._effective(y) + (False,)
         return None
 
